@@ -43,10 +43,103 @@ theorem ring_to_coeff (N : Nat) (hN : 0 < N) (P Y E : Poly) (Q : Ks.R N) (A B M 
     rw [Ks.ι_polyScale, Ks.ι_add N _ _ (by simp [hY, hE, hQl]), Ks.ι_add N _ _ (by simp [hY, hE]), Ks.ι_polyScale, Ks.ι_polyScale]
     exact h
   have := ι_inj N hN _ _ (by simp [hP]) (by simp [hY, hE, hQl]) h'
-  have h2 := congrArg (fun p => p.getD t 0) this
-  simp only at h2
+  have h2 : (polyScale A P).getD t 0 = (polyAdd (polyAdd (polyScale B Y) E) (polyScale M Ql)).getD t 0 := by rw [this]
   rw [polyScale_getD, getD_polyAdd _ _ _ (by simp [hY, hE, hQl]), getD_polyAdd _ _ _ (by simp [hY, hE]), polyScale_getD,
     polyScale_getD] at h2
   exact h2
+
+theorem abs_getD_le_normInf (p : Poly) (t : Nat) : |p.getD t 0| ≤ normInf p := by
+  by_cases ht : t < p.length
+  · rw [List.getD_eq_getElem?_getD, List.getElem?_eq_getElem ht, Option.getD_some]
+    exact abs_le_normInf (List.getElem_mem ht)
+  · rw [List.getD_eq_getElem?_getD, List.getElem?_eq_none (by omega)]
+    simpa using normInf_nonneg p
+
+/-! ### 1. `glwe_keyswitch_decrypts`, coefficient by coefficient -/
+
+/-- the hypotheses of `glwe_keyswitch_decrypts` other than the well-formedness and the digit bound of the input (which the LWE
+theorems below discharge for the embedded ciphertext): key shape, radices, head-room, key relation, covered regime -/
+structure KsSide (big128 : Bool) (N bout sout rout : Nat) (a : Ks.Ct) (key : Ks.Key) (sIn skOut : List Poly)
+    (EL KL : ℕ → ℕ → Poly) (Hin Hp : Int) : Prop where
+  hN : 0 < N
+  hrank : a.rank = key.rankIn
+  hrout : rout = key.rankOut
+  hc0 : 0 < key.mat.colsOut
+  hD : 1 ≤ key.dsize
+  hM : ∀ j q, (key.mat.entry j q).length = N
+  hS : key.mat.rows * key.dsize ≤ key.mat.size
+  hbi1 : 1 ≤ a.base2k
+  hbi : a.base2k ≤ 62
+  hbk1 : 1 ≤ key.base2k
+  hbk : key.base2k ≤ 62
+  hbo1 : 1 ≤ bout
+  hbo : bout ≤ 62
+  hIn0 : 0 ≤ Hin
+  hIn : Hin + 8 ≤ 2 ^ 62
+  hHp0 : 0 ≤ Hp
+  hAcc : Hp + (Hin + 2 ^ key.base2k) + 8 ≤ 2 ^ (bitsOf big128 - 2)
+  hprod : ∀ aConv, Ks.convIn a key = .ok aConv → ∀ i, i < rout + 1 → ∀ l ∈ (prodOf rout aConv key).act i, ∀ x ∈ l, |x| ≤ Hp
+  hs : key.mat.colsIn ≤ sIn.length
+  hEL : ∀ i r, (EL i r).length = N
+  hKL : ∀ i r, (KL i r).length = N
+  hkey : ∀ i, i < key.mat.colsIn → ∀ r, r < key.mat.rows →
+      Gadget.val (Ks.radix N key.base2k) key.mat.size (Ks.keyPhase N skOut key.mat i r) =
+        Ks.ι N (sIn.getD i []) * Ks.radix N key.base2k ^ (key.mat.size - (r + 1) * key.dsize) + Ks.ι N (EL i r)
+          + Ks.radix N key.base2k ^ key.mat.size * Ks.ι N (KL i r)
+  hcov1 : convSize a key ≤ key.mat.size
+  hcov2 : convSize a key ≤ key.mat.rows * key.dsize
+
+/-- the error bound of `glwe_keyswitch_decrypts` (conversion rounding, gadget error, dropped product limbs, final rounding) -/
+def ksBound (N bout sout rout : Nat) (a aConv : Ks.Ct) (key : Ks.Key) (sIn skOut : List Poly) (EL : ℕ → ℕ → Poly) : Int :=
+  2 ^ (bout * sout + key.base2k * (key.mat.size - convSize a key)) *
+      ((1 + snorm (min a.rank sIn.length) sIn) * C02.normTol (key.base2k * convSize a key) (a.base2k * a.size))
+    + 2 ^ (a.base2k * a.size + bout * sout) * gadgetBound N key.base2k (aDftOf aConv) key EL
+    + 2 ^ (a.base2k * a.size + bout * sout) * dropBound N key.base2k skOut (aDftOf aConv) key
+    + 2 ^ (a.base2k * a.size) *
+      ((1 + snorm (min rout skOut.length) skOut) * C02.normTol (bout * sout) (key.base2k * key.mat.size))
+
+/-- **`glwe_keyswitch_decrypts` read coefficient by coefficient** (integers, no quotient ring): for every `t < N`,
+`2^(b_in·s_a + b_key·S)·val_t(phase_{skOut} res) = 2^(b_out·s_out + b_key·S)·val_t(phase_{sIn} a) + e + 2^(b_in·s_a + b_out·s_out + b_key·S)·q`
+with `|e| ≤ ksBound`. -/
+theorem glwe_keyswitch_decrypts_coeff (big128 : Bool) (N bout sout rout : Nat) (a : Ks.Ct) (key : Ks.Key) (sIn skOut : List Poly)
+    (EL KL : ℕ → ℕ → Poly) (Hin Hp : Int) (h : KsSide big128 N bout sout rout a key sIn skOut EL KL Hin Hp)
+    (ha : GWF N a) (hInB : ∀ c ∈ a.cols, ∀ l ∈ c, ∀ x ∈ l, |x| ≤ Hin) :
+    ∃ res aConv, Ks.keyswitch big128 bout sout rout a key = .ok res ∧ Ks.convIn a key = .ok aConv ∧
+      GWF N res ∧ res.base2k = bout ∧ res.size = sout ∧ res.rank = rout ∧
+      ∀ t, t < N → ∃ e q : Int,
+        2 ^ (a.base2k * a.size + key.base2k * key.mat.size) * valCoeff bout (phase skOut res) t
+          = 2 ^ (bout * sout + key.base2k * key.mat.size) * valCoeff a.base2k (phase sIn a) t + e
+            + 2 ^ (a.base2k * a.size + bout * sout + key.base2k * key.mat.size) * q ∧
+        |e| ≤ ksBound N bout sout rout a aConv key sIn skOut EL := by
+  obtain ⟨res, aConv, hok, hconv, gwR, hbR, hsR, hrR, E1, E3, Q, hE1, hE3, _, _, hrel, hbnd⟩ :=
+    glwe_keyswitch_decrypts big128 N bout sout rout a key sIn skOut EL KL Hin Hp h.hN ha h.hrank h.hrout h.hc0 h.hD h.hM h.hS
+      h.hbi1 h.hbi h.hbk1 h.hbk h.hbo1 h.hbo h.hIn0 h.hIn hInB h.hHp0 h.hAcc h.hprod h.hs h.hEL h.hKL h.hkey h.hcov1 h.hcov2
+  refine ⟨res, aConv, hok, hconv, gwR, hbR, hsR, hrR, ?_⟩
+  intro t ht
+  have hGl : (Ks.errL N key.base2k (aDftOf aConv) key EL).length = N := Ks.errL_length N _ _ _ EL h.hEL
+  have hDl : (Ks.dropL N key.base2k skOut (aDftOf aConv) key).length = N := by
+    unfold Ks.dropL
+    apply Ks.sumPolys_range_length
+    intro i _
+    apply Ks.sumPolys_range_length
+    intro di _
+    apply Ks.sumPolys_range_length
+    intro r _
+    apply Ks.sumPolys_range_length
+    intro l _
+    exact Ks.dropTermL_length N _ skOut _ key i di r l h.hc0 h.hM
+  generalize hErr : ksErr (2 ^ (bout * sout + key.base2k * (key.mat.size - convSize a key))) (2 ^ (a.base2k * a.size + bout * sout))
+      (2 ^ (a.base2k * a.size)) E1 (Ks.errL N key.base2k (aDftOf aConv) key EL)
+      (Ks.dropL N key.base2k skOut (aDftOf aConv) key) E3 = Err at hrel hbnd
+  have hErrL : Err.length = N := by
+    rw [← hErr]; unfold ksErr; simp [hE1, hE3, hGl, hDl]
+  have hrel' : ((2 ^ (a.base2k * a.size + key.base2k * key.mat.size) : ℤ) : Ks.R N) * Ks.ι N (valP bout N (phase skOut res))
+      = ((2 ^ (bout * sout + key.base2k * key.mat.size) : ℤ) : Ks.R N) * Ks.ι N (valP a.base2k N (phase sIn a)) + Ks.ι N Err
+        + ((2 ^ (a.base2k * a.size + bout * sout + key.base2k * key.mat.size) : ℤ) : Ks.R N) * Q := by
+    push_cast
+    exact hrel
+  obtain ⟨q, hq⟩ := ring_to_coeff N h.hN _ _ _ Q _ _ _ (by simp) (by simp) hErrL hrel' t
+  rw [valP_getD _ _ _ _ ht, valP_getD _ _ _ _ ht] at hq
+  exact ⟨Err.getD t 0, q, hq, (abs_getD_le_normInf Err t).trans hbnd⟩
 
 end KsDec
